@@ -114,52 +114,96 @@ theorem step_at_most_56 (dev : Dev) (c c' : State) (hs : Small c) (h : update de
     c'.delivered ≤ c.delivered + 56 ∧ Small c' :=
   ⟨update_step_le hs h, update_small hs h⟩
 
-/-- `Core::run_frame` on the model side: `tr i` is the core state when the loop samples the LCD mode for the i-th time -/
+/-- `Core::run_frame` on the model side: `tr i` is the core state when the loop reads the LCD's frame counter for the i-th time -/
 structure FrameRun (step : State → Except Bus.Panic State) (tr : Nat → State) : Prop where
   steps : ∀ i, step (tr i) = .ok (tr (i + 1))
 
-/-- **run_frame_terminates_partial** (instruction-stepped build).  Assumption (what is *not* proved here — the composition of
-`dev` with the LCD model of C14): the STAT mode the loop reads is the closed-form schedule of C14 at the LCD's clock count,
-which is an offset `t0` plus the clocks delivered (`C14.lcd_closed_form` gives this for the LCD model fed with any batches
-of clocks that are multiples of 4; `time_inv`/`progress` give the batches).  Then both polling loops of `run_frame`
-("until mode = 1", "while mode = 1") end: mode ≠ 1 for the first `n1` samples, = 1 for samples `n1 .. n2-1`, ≠ 1 at sample
-`n2`, and fewer than 70224 + 4560 + 56 clocks (< two frame periods + one step) are delivered up to then.
-No bound on the step size is assumed: it is proved (`step_at_most_56`). -/
-theorem run_frame_terminates_partial (dev : Dev) (tr : Nat → State) (run : FrameRun (update dev) tr) (hs : Small (tr 0))
-    (t0 : Nat) (hlcd : ∀ i, (tr i).bus.io.video.mode = (sched (t0 + (tr i).delivered)).mode) :
-    ∃ n1 n2, n1 < n2 ∧ (∀ j, j < n1 → (tr j).bus.io.video.mode ≠ 1) ∧ (∀ j, n1 ≤ j → j < n2 → (tr j).bus.io.video.mode = 1) ∧
-      (tr n2).bus.io.video.mode ≠ 1 ∧ (tr n2).delivered < (tr 0).delivered + 2 * 70224 + 56 := by
-  have hsm : ∀ i, Small (tr i) := by
-    intro i
-    induction i with
-    | zero => exact hs
-    | succ i ih => exact update_small ih (run.steps i)
-  obtain ⟨n1, n2, _, h1, h2, h3, h4, h5⟩ := poll_frame (fun i => t0 + (tr i).delivered) 56
-    (fun i => by have := update_progress (run.steps i); show t0 + _ < t0 + _; omega)
-    (fun i => by have := update_step_le (hsm i) (run.steps i); show t0 + _ ≤ t0 + _ + 56; omega) (by omega)
-  refine ⟨n1, n2, h4, ?_, ?_, ?_, ?_⟩
-  · intro j hj; rw [hlcd]; exact h1 j hj
-  · intro j hj1 hj2; rw [hlcd]; exact h2 j hj1 hj2
-  · rw [hlcd]; exact h3
-  · (try simp only [] at h5); omega
+/-- a strictly advancing clock crosses the next multiple of the frame period, and the first sample at or after it is
+less than one step beyond it -/
+theorem crosses_frame (t : Nat → Nat) (hmono : ∀ i, t i + 4 ≤ t (i + 1)) :
+    ∃ n, 0 < n ∧ t 0 / 70224 < t n / 70224 ∧ (∀ j, j < n → t j / 70224 = t 0 / 70224) ∧ t (n - 1) < (t 0 / 70224 + 1) * 70224 := by
+  -- distance of sample i to the boundary, decreasing by at least 4 per step
+  obtain ⟨B, hBdef⟩ : ∃ B, B = (t 0 / 70224 + 1) * 70224 := ⟨_, rfl⟩
+  have hB0 : t 0 < B := by
+    have := Nat.div_add_mod (t 0) 70224; have := Nat.mod_lt (t 0) (show 0 < 70224 by decide); omega
+  have hlow : t 0 / 70224 * 70224 ≤ t 0 := Nat.div_mul_le_self _ _
+  have hge : ∀ i, t 0 + 4 * i ≤ t i := by
+    intro i; induction i with
+    | zero => omega
+    | succ i ih => have := hmono i; omega
+  -- search: ∀ d, for every i whose samples up to i are all below B and B - t i ≤ d, a crossing index exists
+  have key : ∀ d i, (∀ j, j ≤ i → t j < B) → B - t i ≤ d → ∃ n, i < n ∧ B ≤ t n ∧ (∀ j, j < n → t j < B) := by
+    intro d
+    induction d with
+    | zero => intro i hi hd; have := hi i (Nat.le_refl _); omega
+    | succ d ih =>
+      intro i hi hd
+      by_cases hn : t (i + 1) < B
+      · have := hmono i
+        obtain ⟨n, h1, h2, h3⟩ := ih (i + 1) (fun j hj => by
+          by_cases hji : j ≤ i
+          · exact hi j hji
+          · have : j = i + 1 := by omega
+            subst this; exact hn) (by omega)
+        exact ⟨n, by omega, h2, h3⟩
+      · refine ⟨i + 1, by omega, by omega, ?_⟩
+        intro j hj; exact hi j (by omega)
+  have h00 : ∀ j, j ≤ 0 → t j < B := by
+    intro j hj
+    have hj0 : j = 0 := by omega
+    subst hj0; exact hB0
+  obtain ⟨n, hn0, hn1, hn2⟩ := key (B - t 0) 0 h00 (Nat.le_refl _)
+  have hdiv : ∀ x, t 0 / 70224 * 70224 ≤ x → x < B → x / 70224 = t 0 / 70224 := by
+    intro x h1 h2
+    have h3 : x < (t 0 / 70224 + 1) * 70224 := by rw [← hBdef]; exact h2
+    have := Nat.div_add_mod x 70224; have := Nat.mod_lt x (show 0 < 70224 by decide)
+    have hq : t 0 / 70224 ≤ x / 70224 := by
+      apply Nat.le_div_iff_mul_le (by decide) |>.mpr; exact h1
+    have hq2 : x / 70224 < t 0 / 70224 + 1 := Nat.div_lt_iff_lt_mul (by decide) |>.mpr h3
+    omega
+  refine ⟨n, hn0, ?_, ?_, ?_⟩
+  · have : t 0 / 70224 + 1 ≤ t n / 70224 := Nat.le_div_iff_mul_le (by decide) |>.mpr (by rw [← hBdef]; exact hn1)
+    omega
+  · intro j hj
+    have h1 := hn2 j hj
+    have h2 : t 0 ≤ t j := by have := hge j; omega
+    exact hdiv (t j) (by omega) h1
+  · rw [← hBdef]; exact hn2 (n - 1) (by omega)
 
-/-- **run_frame_terminates_blocks_partial** (`jit` build, block stepping).  Two assumptions: the LCD tie as above, and that
-no block step delivers more than 4560 clocks (the length of the VBlank window).  The second one is NOT a property of the
-code: a block of 1140 machine cycles or more can step over every VBlank window, and then `run_frame` does not terminate
-(DESIGN §5 C09 F.; exhibited by the c09.frame stream). -/
-theorem run_frame_terminates_blocks_partial (dev : Dev) (tr : Nat → State) (run : FrameRun (updateBlock dev) tr)
-    (g : Nat) (hg : g ≤ 4560) (hstep : ∀ i, (tr (i + 1)).delivered ≤ (tr i).delivered + g)
-    (t0 : Nat) (hlcd : ∀ i, (tr i).bus.io.video.mode = (sched (t0 + (tr i).delivered)).mode) :
-    ∃ n1 n2, n1 < n2 ∧ (∀ j, j < n1 → (tr j).bus.io.video.mode ≠ 1) ∧ (∀ j, n1 ≤ j → j < n2 → (tr j).bus.io.video.mode = 1) ∧
-      (tr n2).bus.io.video.mode ≠ 1 ∧ (tr n2).delivered < (tr 0).delivered + 2 * 70224 + g := by
-  obtain ⟨n1, n2, _, h1, h2, h3, h4, h5⟩ := poll_frame (fun i => t0 + (tr i).delivered) g
-    (fun i => by have := updateBlock_progress (run.steps i); show t0 + _ < t0 + _; omega)
-    (fun i => by have := hstep i; show t0 + _ ≤ t0 + _ + g; omega) hg
-  refine ⟨n1, n2, h4, ?_, ?_, ?_, ?_⟩
-  · intro j hj; rw [hlcd]; exact h1 j hj
-  · intro j hj1 hj2; rw [hlcd]; exact h2 j hj1 hj2
-  · rw [hlcd]; exact h3
-  · (try simp only [] at h5); omega
+/-- **run_frame_terminates_partial**, for instruction stepping AND block stepping, with no bound on the block length.
+`Core::run_frame` steps the machine until the LCD's count of completed frames changes.  Assumption (what is *not* proved
+here — the composition of `dev` with the LCD model of C14): that count is the number of whole frame periods in the LCD's
+clock, an offset `t0` plus the clocks delivered (`C14.vblank_once_per_frame` / `lcd_closed_form`: exactly one VBlank entry
+per 70224 clocks, however the clocks are batched).  Then the loop ends at some sample `n`, every earlier sample still shows
+the old count, and the last step before it started less than one frame period after the call: the call returns within one
+frame period plus one step (inside the property's two frame periods plus one block). -/
+theorem run_frame_terminates_partial (step : State → Except Bus.Panic State) (tr : Nat → State) (run : FrameRun step tr)
+    (hprog : ∀ c c', step c = .ok c' → c.delivered + 4 ≤ c'.delivered)
+    (frames : State → Nat) (t0 : Nat) (hlcd : ∀ i, frames (tr i) = (t0 + (tr i).delivered) / 70224) :
+    ∃ n, 0 < n ∧ frames (tr n) ≠ frames (tr 0) ∧ (∀ j, j < n → frames (tr j) = frames (tr 0)) ∧
+      (tr (n - 1)).delivered < (tr 0).delivered + 70224 := by
+  obtain ⟨n, h0, h1, h2, h3⟩ := crosses_frame (fun i => t0 + (tr i).delivered)
+    (fun i => by have := hprog _ _ (run.steps i); show t0 + _ + 4 ≤ t0 + _; omega)
+  refine ⟨n, h0, ?_, ?_, ?_⟩
+  · rw [hlcd, hlcd]; omega
+  · intro j hj; rw [hlcd, hlcd]; exact h2 j hj
+  · have := Nat.div_mul_le_self (t0 + (tr 0).delivered) 70224
+    have hx : (t0 + (tr 0).delivered) / 70224 * 70224 + 70224 = ((t0 + (tr 0).delivered) / 70224 + 1) * 70224 := by
+      rw [Nat.add_mul, Nat.one_mul]
+    omega
+
+/-- the instances: both step functions of the emulator make progress, whatever the devices do -/
+theorem run_frame_terminates_update (dev : Dev) (tr : Nat → State) (run : FrameRun (update dev) tr)
+    (frames : State → Nat) (t0 : Nat) (hlcd : ∀ i, frames (tr i) = (t0 + (tr i).delivered) / 70224) :
+    ∃ n, 0 < n ∧ frames (tr n) ≠ frames (tr 0) ∧ (tr (n - 1)).delivered < (tr 0).delivered + 70224 := by
+  obtain ⟨n, h0, h1, _, h3⟩ := run_frame_terminates_partial (update dev) tr run (fun c c' h => update_progress h) frames t0 hlcd
+  exact ⟨n, h0, h1, h3⟩
+
+theorem run_frame_terminates_blocks (dev : Dev) (tr : Nat → State) (run : FrameRun (updateBlock dev) tr)
+    (frames : State → Nat) (t0 : Nat) (hlcd : ∀ i, frames (tr i) = (t0 + (tr i).delivered) / 70224) :
+    ∃ n, 0 < n ∧ frames (tr n) ≠ frames (tr 0) ∧ (tr (n - 1)).delivered < (tr 0).delivered + 70224 := by
+  obtain ⟨n, h0, h1, _, h3⟩ := run_frame_terminates_partial (updateBlock dev) tr run (fun c c' h => updateBlock_progress h) frames t0 hlcd
+  exact ⟨n, h0, h1, h3⟩
 
 /-! ### concrete runs (the hypotheses are satisfiable; the counters move as stated) -/
 
